@@ -453,6 +453,10 @@ func (p *Prog) envVersions(c *Ctx, f *Func) {
 			if rs, ok := x.(*ast.RangeStmt); ok && SelField(cinfo, rs.X) == vpF {
 				same = true
 			}
+			// a direct lookup VersionedPlugins[v] accepts exactly the keys as well
+			if ix, ok := x.(*ast.IndexExpr); ok && SelField(cinfo, ix.X) == vpF {
+				same = true
+			}
 			return true
 		})
 		if same {
@@ -466,9 +470,20 @@ func (p *Prog) envVersions(c *Ctx, f *Func) {
 		pinfo := pv.Pkg.TypesInfo
 		ok := false
 		for _, call := range pv.Calls() {
-			if p.CalleeName(pv, call) == "strings.Split" {
+			switch p.CalleeName(pv, call) {
+			case "strings.Split", "strings.SplitSeq", "strings.SplitN", "strings.Cut":
 				if s, isC := constString(pinfo, call.Args[1]); isC && s == "," {
 					ok = true
+				}
+			case "strings.FieldsFunc", "strings.FieldsFuncSeq":
+				// accepted only with a literal that tests for ','
+				if fl, isL := ast.Unparen(call.Args[1]).(*ast.FuncLit); isL {
+					ast.Inspect(fl.Body, func(x ast.Node) bool {
+						if bl, isB := x.(*ast.BasicLit); isB && bl.Value == "','" {
+							ok = true
+						}
+						return true
+					})
 				}
 			}
 		}
